@@ -10,19 +10,19 @@
    its latest snapshot plus replay.
 
    Switches for behaviour the code has:
-     RestoreReplaces = FALSE : processSnapshot only ADDS datasets that are missing - it
-                               never removes a dataset and never updates an existing one (as shipped)
-                       TRUE  : the restored catalogue replaces the node's catalogue.  (The repaired code
-                               adds and removes datasets; replica-set changes of a dataset it already knows
-                               are not taken from the snapshot but re-derived by the allocator from the
-                               membership snapshot - observed consistent in the real-server scenario
-                               "lagging-leave", not modelled here.)
+     RestoreMode = "addonly"  : processSnapshot only ADDS datasets that are missing - it never removes a
+                                dataset and never updates one it knows (as shipped)
+                   "datasets" : it adds missing datasets and removes those that are not in the snapshot,
+                                but keeps the replica sets of the datasets it already knows (the first
+                                repair, 9ee66ac: a follower that was away while a node left keeps
+                                listing the old replica sets - real-server scenario "lagging-replicas")
+                   "full"     : the restored catalogue replaces the node's catalogue (repaired)
      WireFirst       = FALSE : the zero group's apply loop is started before the
                                catalogue consumer is registered; entries applied in
                                between are dropped (as shipped: server.go setup) *)
 EXTENDS Integers, Sequences, FiniteSets, TLC
 
-CONSTANTS Nodes, Datasets, NP, R, MaxLog, RestoreReplaces, WireFirst
+CONSTANTS Nodes, Datasets, NP, R, MaxLog, RestoreMode, WireFirst
 
 Parts == 1..NP
 RF == IF R < Cardinality(Nodes) THEN R ELSE Cardinality(Nodes)
@@ -57,8 +57,10 @@ Apply(n) == /\ applied[n] < Len(log)
             /\ UNCHANGED <<log, wired, snaps>>
 Snap(n) == wired[n] /\ snaps' = snaps \cup {[idx |-> applied[n], cat |-> cat[n]]} /\ UNCHANGED <<log, cat, applied, wired>>
 Restore(n, s) == /\ s \in snaps /\ s.idx >= applied[n] /\ wired[n]
-                 /\ cat' = [cat EXCEPT ![n] = IF RestoreReplaces THEN s.cat
-                                               ELSE [d \in DOMAIN @ \cup DOMAIN s.cat |-> IF d \in DOMAIN @ THEN @[d] ELSE s.cat[d]]]
+                 /\ cat' = [cat EXCEPT ![n] =
+                      CASE RestoreMode = "full" -> s.cat
+                        [] RestoreMode = "datasets" -> [d \in DOMAIN s.cat |-> IF d \in DOMAIN @ THEN @[d] ELSE s.cat[d]]
+                        [] OTHER -> [d \in DOMAIN @ \cup DOMAIN s.cat |-> IF d \in DOMAIN @ THEN @[d] ELSE s.cat[d]]]
                  /\ applied' = [applied EXCEPT ![n] = s.idx]
                  /\ UNCHANGED <<log, wired, snaps>>
 \* restart: volatile state is lost; the apply loop starts (from the latest local snapshot or from 0)
